@@ -31,7 +31,8 @@ const SM4_MODES: [&str; 4] = ["cbc", "cfb", "ofb", "ctr"];
 fn n_targets() -> usize {
     1 + 4 + 1 + 6 + 5 + 1 + 2 + 4 + 4 + 1 + 1 + 1 + 1
 }
-const SPECIALS: usize = 3 + crate::gen_c19::N_SEMANTIC; // kdf, compute_za, termination, well-formed-but-odd documents
+const SPECIALS: usize = 3 + crate::gen_c19::N_SEMANTIC + 1; // + SM9 identity-length sweep
+const ID_SWEEP: usize = 3 + crate::gen_c19::N_SEMANTIC; // kdf, compute_za, termination, well-formed-but-odd documents
 
 fn samples(t: Tier) -> usize {
     t.pick(1, 8)
@@ -237,6 +238,46 @@ fn inputs_for(p: &mut Prng, t: &Target, tier: Tier) -> Vec<Vec<Value>> {
             v.push(vec![set("x.in", &ascii(p, len))]);
         }
     }
+    if t.text {
+        // valid UTF-8 with multi-byte characters at every small offset (a &str API slices by bytes)
+        let chars = ["é", "€", "𝄞", "用"];
+        for pos in 0..10usize {
+            for ch in chars {
+                for tail in [0usize, 1, 64, 130] {
+                    let mut sv = String::new();
+                    sv.push_str(&"0x123456789abcdef0"[..pos.min(18)]);
+                    sv.push_str(ch);
+                    sv.push_str(&"a".repeat(tail));
+                    v.push(vec![set("x.in", sv.as_bytes())]);
+                }
+            }
+        }
+        for n in [1usize, 2, 3, 16, 32, 33, 64, 65] {
+            v.push(vec![set("x.in", "é".repeat(n).as_bytes())]);
+            v.push(vec![set("x.in", "𝄞".repeat(n).as_bytes())]);
+        }
+        if let Some(valid) = &t.valid {
+            if let Ok(vs) = std::str::from_utf8(valid) {
+                for pos in (0..12).chain([vs.len() / 2, vs.len().saturating_sub(1), vs.len()]) {
+                    if pos <= vs.len() && vs.is_char_boundary(pos) {
+                        for ch in chars {
+                            let mut sv = String::from(&vs[..pos]);
+                            sv.push_str(ch);
+                            sv.push_str(&vs[pos..]);
+                            v.push(vec![set("x.in", sv.as_bytes())]);
+                            // ... and replacing the character at pos
+                            if pos < vs.len() {
+                                let mut sr = String::from(&vs[..pos]);
+                                sr.push_str(ch);
+                                sr.push_str(&vs[pos + 1..]);
+                                v.push(vec![set("x.in", sr.as_bytes())]);
+                            }
+                        }
+                    }
+                }
+            }
+        }
+    }
     if let Some(valid) = &t.valid {
         let base: Vec<Value> = vec![set("x.in", valid)];
         v.push(base.clone());
@@ -335,7 +376,32 @@ pub fn run_c20(p: &mut Prng, tier: Tier, i: usize, sink: &mut Sink) {
                 }
             }
         }
-        3 | 4 | 5 => {
+        x if x == ID_SWEEP => {
+            // identities of every length 0..=300 (and two long ones) at the SM9 entry points that
+            // hash them: verify_sign and decrypt (receive side), and the sending side for good measure
+            let order9 = rsm9::with(|s| s.n.clone());
+            let (mk, _) = scalar_class(p, &order9);
+            w.exec(set("i.k", &be32(&mk)));
+            w.exec(json!({"op":"sm9.master_pub","impl":"ref","kind":"sign","k":"i.k","pub":"i.pubs"}));
+            w.exec(json!({"op":"sm9.master_pub","impl":"ref","kind":"enc","k":"i.k","pub":"i.pube"}));
+            w.exec(set("i.id0", b"Alice"));
+            w.exec(json!({"op":"sm9.extract","impl":"ref","kind":"sign","k":"i.k","pub":"i.pubs","id":"i.id0","out":"i.ds"}));
+            w.exec(json!({"op":"sm9.extract","impl":"ref","kind":"enc","k":"i.k","pub":"i.pube","id":"i.id0","out":"i.de"}));
+            w.exec(set("i.msg", b"identity sweep"));
+            w.exec(json!({"op":"sm9.sign","impl":"ref","ds":"i.ds","ppubs":"i.pubs","id":"i.id0","msg":"i.msg","sig":"i.sig","rng":rng_json(&uniform_script(p, 1))}));
+            w.exec(json!({"op":"sm9.encrypt","impl":"ref","ppube":"i.pube","id":"i.id0","msg":"i.msg","ct":"i.ct","rng":rng_json(&uniform_script(p, 1))}));
+            for idlen in (0..=300usize).chain([1000, 5000]) {
+                w.exec(set("i.id", &p.bytes(idlen)));
+                w.exec(json!({"op":"sm9.verify","impl":"lib","ppubs":"i.pubs","id":"i.id","msg":"i.msg","sig":"i.sig","ref_on_reject":false}));
+                w.exec(json!({"op":"sm9.decrypt","impl":"lib","de":"i.de","ppube":"i.pube","id":"i.id","ct":"i.ct","ref_on_reject":false}));
+                if idlen % 10 == 0 || idlen > 245 && idlen < 262 {
+                    w.exec(json!({"op":"sm9.encrypt","impl":"lib","ppube":"i.pube","id":"i.id","msg":"i.msg","ct":"i.ct2","rng":rng_json(&uniform_script(p, 1))}));
+                    w.exec(json!({"op":"sm9.kex.1a","impl":"lib","ppube":"i.pube","idb":"i.id","out_ra":"i.ra","out_r":"i.r","rng":rng_json(&uniform_script(p, 1))}));
+                }
+            }
+            w.bump("history.sm9-identity-sweep");
+        }
+        3 | 4 | 5 | 6 => {
             crate::gen_c19::semantic_docs(p, &mut w, i - nt * CHUNKS - 3);
         }
         _ => {
